@@ -480,6 +480,19 @@ def classify_view(I, r, e, arg, fn, ret_state=None):
                     return 'tail of self.vec split at a validated char boundary'
     if arg[0] == 'call' and arg[1].endswith('::clone'):
         return 'clone of self.vec'
+    # a vector whose whole visible content is one copy of a `&str` parameter: len == len(s), [0, len) copied from s
+    if arg[0] == 'agg' and arg[1].endswith('vec::Vec'):
+        n = field_of(arg, 'len')
+        body = I.bodies.get(r.events[0].stack[0][0]) if r.events else None
+        ins = (body['meta'].get('inputs') or []) if body else []
+        strs = [('param', i + 1) for i, ty in enumerate(ins) if ty.replace("'", '').rstrip().endswith('str') and ty.lstrip().startswith('&')]
+        bufp = field_of(field_of(arg, 'buf'), 'ptr') if field_of(arg, 'buf') is not None and field_of(arg, 'buf')[0] == 'agg' else None
+        for sp_ in strs:
+            if n == app('len', sp_):
+                cps = [ev for ev in r.events if ev.kind == 'copy' and ev.is_own() and ev.args[0] == sp_ and ev.args[2] == n and (bufp is None or ev.args[1] == bufp)]
+                others = [ev for ev in r.events if ev.is_own() and (ev.kind == 'copy' or (ev.kind == 'call' and ev.callee in ('core::ptr::write', 'core::ptr::write_bytes'))) and ev not in cps]
+                if len(cps) == 1 and not others:
+                    return 'every visible byte was copied from a &str parameter of the same length'
     return None
 
 
